@@ -126,4 +126,59 @@ theorem builtin_fns_never_relock :
 
 example : noRelock [.acq .blocking .unwrap .self_, .acq .blocking .unwrap .other] [] false = false := by decide
 
+/-! ### lock order: a call that holds two lists takes them in address order -/
+
+/-- Every function compiled code reaches holds at most one list that other
+    threads can see, or takes the two in address order (`==` on lists).  With
+    a global order on the mutexes there is no wait cycle between calls.
+    Static check over the generated events (`lockOrderOk`); the general
+    theorem "ordered acquisition ⇒ some thread can always proceed" is NOT
+    proved here (partial): what is proved is that the condition is necessary
+    (`unordered_pairs_deadlock`, `deadlock_is_forever`). -/
+theorem builtin_fns_lock_order :
+    ∀ f ∈ LockFn.all, f.reachedByBuiltins = true → lockOrderOk f.events [] = true := by
+  decide
+
+example : lockOrderOk [.distinctOrReturn, .acq .blocking .unwrap .self_, .acq .blocking .unwrap .other] [] = false := by decide
+example : lockOrderOk [.distinctOrReturn, .acq .blocking .unwrap .lo, .acq .blocking .unwrap .hi, .rel .hi, .rel .lo] [] = true := by decide
+
+/-- Necessity: `a == b` on thread 0 and `b == a` on thread 1 with locks taken
+    in ARGUMENT order (`self` then `other`): each thread gets its first list
+    and then waits for the other's. -/
+theorem unordered_pairs_deadlock :
+    run St.init [(0, .acq .blocking .unwrap 0), (1, .acq .blocking .unwrap 1),
+                 (0, .acq .blocking .unwrap 1), (1, .acq .blocking .unwrap 0)]
+      = [.acquired, .acquired, .blocked, .blocked] := by decide
+
+theorem blocked_step_holders (s : St) (t m h : Nat) (hh : (s m).holder = some h) (hne : h ≠ t) (k : Nat) :
+    (step s t (.acq .blocking .unwrap m)).1 = .blocked ∧
+    ((step s t (.acq .blocking .unwrap m)).2 k).holder = (s k).holder := by
+  simp only [step, attempt, hh, St.set]
+  simp only [hne, if_false]
+  refine ⟨trivial, ?_⟩
+  split
+  · next e => subst e; rfl
+  · rfl
+
+/-- …and that state is final: however often the two threads retry, in any
+    order, every attempt is `blocked` — both calls hang forever. -/
+theorem deadlock_is_forever (tr : List (Nat × Act)) (s : St)
+    (h0 : (s 0).holder = some 0) (h1 : (s 1).holder = some 1)
+    (htr : ∀ x ∈ tr, x = (0, Act.acq .blocking .unwrap 1) ∨ x = (1, Act.acq .blocking .unwrap 0)) :
+    ∀ o ∈ run s tr, o = .blocked := by
+  induction tr generalizing s with
+  | nil => simp [run]
+  | cons x rest ih =>
+    intro o ho
+    simp only [run, List.mem_cons] at ho
+    rcases htr x (by simp) with hx | hx <;> subst hx
+    · have hb := fun k => blocked_step_holders s 0 1 1 h1 (by decide) k
+      rcases ho with ho | ho
+      · rw [ho]; exact (hb 0).1
+      · exact ih _ ((hb 0).2 ▸ h0) ((hb 1).2 ▸ h1) (fun y hy => htr y (by simp [hy])) o ho
+    · have hb := fun k => blocked_step_holders s 1 0 0 h0 (by decide) k
+      rcases ho with ho | ho
+      · rw [ho]; exact (hb 0).1
+      · exact ih _ ((hb 0).2 ▸ h0) ((hb 1).2 ▸ h1) (fun y hy => htr y (by simp [hy])) o ho
+
 end RotoV.C10C
